@@ -258,3 +258,221 @@ Proof.
 Qed.
 
 Ltac free := intros ? _; left; reflexivity.
+
+(* ---------------------------------------------------------------- the removal cascade *)
+Ltac via_fold :=
+  lazymatch goal with
+  | |- oR R _ (foldO _ _ ?m1 >>> _) => apply (oRR_step _ m1)
+  | |- oR R _ (foldO _ _ ?m1) => apply (oRR_step _ m1)
+  end.
+
+Ltac via_foldr :=
+  lazymatch goal with
+  | |- R _ ?t => match t with context [foldr ?f ?a ?l] => apply (R_trans _ (foldr f a l)) end
+  end.
+
+Lemma remove_listener_R m k : R m (remove_listener m k).
+Proof. unfold remove_listener. destruct (listeners (ms m) !! k); [same|apply R_refl]. Qed.
+
+Lemma remove_end_R m cookie e : oRR m (remove_end m cookie e).
+Proof.
+  unfold remove_end. destruct (chans (ms m) !! cookie) as [ch|]; [|apply R_refl].
+  destruct (chan_close ch e) as [|ch' o|site]; [same| |exact I].
+  destruct (has _ o).
+  - eapply oRR_step; [|apply send_or_remove_R; free]. same.
+  - same.
+Qed.
+
+Lemma remove_service_R m cookie : oRR m (remove_service m cookie).
+Proof.
+  unfold remove_service. destruct (svc_by_cookie (ms m) cookie) as [[k s]|]; [|apply R_refl].
+  via_fold; [|apply oRR_bind].
+  - apply R_shr; [|reflexivity|reflexivity]. cbn. split; [apply cle_refl|apply ole_refl|apply sle_delete].
+  - apply oRR_foldO. intros m1 b. destruct (calls (ms m1) !! b) as [cl|]; [|exact I].
+    cbn. destruct (c_aborted cl); same.
+  - intros m2. cbn. via_foldr; [|same].
+    apply RR_foldr. intros m3 c. destruct (has m3 c); [same|apply R_refl].
+Qed.
+
+Lemma remove_object_R m cookie : oRR m (remove_object m cookie).
+Proof.
+  unfold remove_object. destruct (obj_by_cookie (ms m) cookie) as [[u o]|]; [|apply R_refl].
+  via_fold; [|apply oRR_bind].
+  - apply R_shr; [|reflexivity|reflexivity]. cbn. split; [apply cle_refl|apply ole_delete|apply sle_refl].
+  - apply oRR_foldO. intros; apply remove_service_R.
+  - intros m2. cbn. same.
+Qed.
+
+Definition Rabs (c : conn) (m m' : M) : Prop := R m m' /\ conns (ms m') !! c = None.
+
+Lemma R_absent m m' c : R m m' -> conns (ms m) !! c = None -> conns (ms m') !! c = None.
+Proof.
+  intros [S _] H. destruct (conns (ms m') !! c) as [cs|] eqn:E; [|reflexivity].
+  destruct (shr_c _ _ S _ _ E) as (cs0 & E0 & _). congruence.
+Qed.
+
+Lemma shutdown_conn_R m c sd : oR (Rabs c) m (shutdown_conn m c sd).
+Proof.
+  unfold shutdown_conn. destruct (conns (ms m) !! c) as [cs|] eqn:Ec.
+  2:{ split; [apply R_refl|exact Ec]. }
+  set (m0 := m <| ms; conns ::= delete c |>).
+  set (m1 := if sd && cs_alive cs then m0 <| mo := mo m0 ++ [(c, Shutdown, None)] |> else m0).
+  assert (H1 : R m m1 /\ conns (ms m1) !! c = None).
+  { split.
+    - split.
+      + subst m1 m0. destruct (sd && cs_alive cs); cbn; (split; [apply cle_delete|apply ole_refl|apply sle_refl]).
+      + intros _ HW. split.
+        * intros c' sc cs' Hin Hc. apply (HW c' sc cs').
+          -- subst m1 m0. destruct (sd && cs_alive cs); exact Hin.
+          -- subst m1 m0. destruct (sd && cs_alive cs); cbn in Hc; apply lookup_delete_Some in Hc as [_ Hc]; exact Hc.
+        * subst m1 m0. destruct (sd && cs_alive cs); cbn.
+          -- exists [(c, Shutdown, None)]. split; [reflexivity|]. constructor; [|constructor].
+             exists cs. split; [exact Ec|]. left. reflexivity.
+          -- exists []. rewrite app_nil_r. auto.
+    - subst m1 m0. destruct (sd && cs_alive cs); cbn; apply lookup_delete. }
+  clearbody m1. clear m0.
+  match goal with |- oR _ _ ?X => enough (H : oRR m1 X) end.
+  { destruct H1 as [H1 H1']. match goal with |- oR _ _ ?X => destruct X as [m'|m'|] end; cbn in *;
+      try exact I; (split; [eapply R_trans; eassumption|eapply R_absent; eassumption]). }
+  clear H1.
+  cbv zeta. via_fold; [apply RR_foldl; intros; apply remove_listener_R|].
+  apply oRR_bind; [apply oRR_foldO; intros; apply remove_object_R|]. intros m3.
+  apply oRR_bind.
+  { apply oRR_foldO. intros ma k.
+    destruct (svcs (ms ma) !! k) as [s|] eqn:Es; [|apply R_refl].
+    destruct (owner_of_svc (ms ma) k) as [owner|]; [|exact I].
+    cbn. apply RR_foldl. intros mb e.
+    destruct (svcs (ms mb) !! k) as [s'|] eqn:Es'; [|apply R_refl].
+    destruct (bool_decide _).
+    - apply R_shr; [|reflexivity|reflexivity]. cbn.
+      split; [apply cle_refl|apply ole_refl|eapply sle_insert; [exact Es'|auto]].
+    - apply R_shr; [|reflexivity|reflexivity]. cbn.
+      split; [apply cle_refl|apply ole_refl|eapply sle_insert; [exact Es'|auto]]. }
+  intros m4. apply oRR_bind.
+  { apply oRR_foldO. intros ma k.
+    destruct (svcs (ms ma) !! k) as [s|] eqn:Es; [|apply R_refl].
+    destruct (owner_of_svc (ms ma) k) as [owner|] eqn:Eo; [|exact I].
+    destruct (bool_decide_reflect (c ∈ s_all s)) as [Hin|]; [|apply R_refl].
+    cbn. assert (Hsle : sle (svcs (ms ma)) (<[k := s <| s_all := s_all s ∖ {[c]} |>]> (svcs (ms ma)))).
+    { eapply sle_insert; [exact Es|]. cbn. intros _. set_solver. }
+    split.
+    - destruct (bool_decide _); cbn; (split; [apply cle_refl|apply ole_refl|exact Hsle]).
+    - intros HJ HW. split.
+      + intros c' sc cs' Hin' Hc'.
+        assert (Hc'' : conns (ms ma) !! c' = Some cs') by (destruct (bool_decide _); exact Hc').
+        destruct (bool_decide (s_all s ∖ {[c]} = ∅)); cbn in Hin'; [|eapply HW; eassumption].
+        apply elem_of_cons in Hin' as [Heq|Hin']; [|eapply HW; eassumption].
+        injection Heq as -> ->. unfold owner_of_svc in Eo.
+        destruct (objs (ms ma) !! k.1) as [o|] eqn:Eob; [|discriminate]. cbn in Eo. injection Eo as <-.
+        eapply (HJ k s o cs'); eauto. set_solver.
+      + exists []. rewrite app_nil_r. split; [|constructor]. destruct (bool_decide _); reflexivity. }
+  intros m5.
+  eapply oRR_step.
+  { apply R_shr with (m' := m5 <| ms; svcs ::= fmap (fun s => s <| s_subs ::= fun x => x ∖ {[c]} |>) |>);
+      [|reflexivity|reflexivity].
+    cbn. split; [apply cle_refl|apply ole_refl|apply sle_fmap; reflexivity]. }
+  apply oRR_bind.
+  { apply oRR_foldO. intros ma k. destruct (chans (ms ma) !! k) as [ch|]; [|apply R_refl].
+    destruct (ch_s ch) as [|o cap|]; try apply R_refl.
+    destruct (bool_decide _); [apply remove_end_R|apply R_refl]. }
+  intros m7. apply oRR_bind.
+  { apply oRR_foldO. intros ma k. destruct (chans (ms ma) !! k) as [ch|]; [|apply R_refl].
+    destruct (ch_r ch) as [|o cap|]; try apply R_refl.
+    destruct (bool_decide _); [apply remove_end_R|apply R_refl]. }
+  intros m8. cbn. via_foldr; [|same]. apply RR_foldr. intros; same.
+Qed.
+
+Lemma bus_R m ev : oRR m (bus m ev).
+Proof.
+  unfold bus. apply oRR_foldO. intros ma c.
+  destruct (has ma c); [apply send_or_remove_R; free|apply R_refl].
+Qed.
+
+Lemma abort_call_R m b callee : oRR m (abort_call m b callee).
+Proof.
+  unfold abort_call. destruct (calls (ms m) !! b) as [cl|]; [|apply R_refl].
+  destruct (c_aborted cl); [apply R_refl|].
+  set (m1 := m <| ms; calls ::= <[b := cl <| c_aborted := true |>]> |>).
+  apply (oRR_step _ m1); [same|]. clearbody m1.
+  apply oRR_bind.
+  - destruct (conns (ms m1) !! callee) as [cc|] eqn:Ec; [|apply R_refl].
+    destruct (N.leb_spec MIN_ABORT_FUNCTION_CALL_OUT (cs_ver cc)) as [Hle|]; [|apply R_refl].
+    apply send_or_remove_R. intros cs Hcs. right. rewrite Ec in Hcs. injection Hcs as <-. exact Hle.
+  - intros m2. destruct (conns (ms m2) !! c_caller cl) as [cs|] eqn:Ec; [|apply R_refl].
+    destruct (cs_calls cs !! c_serial cl); [|exact I].
+    eapply oRR_step; [|apply send_or_remove_R; free].
+    apply R_shr; [|reflexivity|reflexivity]. cbn.
+    split; [eapply cle_insert; [exact Ec|reflexivity]|apply ole_refl|apply sle_refl].
+Qed.
+
+Lemma settle_one_R m x : settle_one m = Some x -> oRR m x.
+Proof.
+  unfold settle_one.
+  destruct (w_remove_conns (mw m)) as [|[c sd] r] eqn:E1.
+  2:{ intros [= <-]. eapply oRR_step with (m1 := m <| mw; w_remove_conns := r |>); [same|].
+      pose proof (shutdown_conn_R (m <| mw; w_remove_conns := r |>) c sd) as H.
+      destruct (shutdown_conn _ c sd); cbn in *; try exact I; apply H. }
+  destruct (w_unsub_ev (mw m)) as [|[[c s] e] r] eqn:E2.
+  2:{ intros [= <-]. eapply oRR_step with (m1 := m <| mw; w_unsub_ev := r |>); [same|].
+      destruct (has _ c); [apply send_or_remove_R; free|apply R_refl]. }
+  destruct (w_unsub_all (mw m)) as [|[c s] r] eqn:E3.
+  2:{ intros H. apply (inj Some) in H. subst x. cbv zeta. set (m1 := m <| mw; w_unsub_all := r |>).
+      assert (H1 : R m m1).
+      { split; [apply shr_refl|]. intros _ HW. split.
+        - intros c' sc cs Hin Hc. apply (HW c' sc cs); [|exact Hc]. rewrite E3. apply elem_of_cons. right. exact Hin.
+        - exists []. rewrite app_nil_r. auto. }
+      destruct (has m1 c); [|exact H1].
+      (* the send is justified by W of the ORIGINAL m, not of m1: prove the composite directly *)
+      unfold send_or_remove, send. destruct (conns (ms m1) !! c) as [cs|] eqn:Ec; [|exact I].
+      assert (Hsend : R m (m1 <| mo := mo m1 ++ [(c, UnsubscribeAllEvents None s, None)] |>)).
+      { split; [apply shr_refl|]. intros _ HW. split.
+        - intros c' sc cs' Hin Hc. apply (HW c' sc cs'); [|exact Hc]. rewrite E3. apply elem_of_cons. right. exact Hin.
+        - exists [(c, UnsubscribeAllEvents None s, None)]. split; [reflexivity|]. constructor; [|constructor].
+          exists cs. split; [exact Ec|]. right. cbn. apply (HW c s cs); [|exact Ec]. rewrite E3. apply elem_of_cons. left. reflexivity. }
+      destruct (cs_alive cs); cbn; [exact Hsend|].
+      eapply R_trans; [exact H1|apply push_remove_R]. }
+  destruct (w_svc_destroyed (mw m)) as [|[c s] r] eqn:E4.
+  2:{ intros [= <-]. eapply oRR_step with (m1 := m <| mw; w_svc_destroyed := r |>); [same|].
+      destruct (has _ c); [apply send_or_remove_R; free|apply R_refl]. }
+  destruct (w_rm_call (mw m)) as [|[[serial c] result] r] eqn:E5.
+  2:{ intros H. apply (inj Some) in H. subst x. cbv zeta.
+      set (m1 := m <| mw; w_rm_call := r |>). apply (oRR_step _ m1); [same|]. clearbody m1.
+      destruct (conns (ms m1) !! c) as [cs|] eqn:Ec; [|apply R_refl].
+      destruct (cs_calls cs !! serial); [|exact I].
+      eapply oRR_step; [|apply send_or_remove_R; free].
+      apply R_shr; [|reflexivity|reflexivity]. cbn.
+      split; [eapply cle_insert; [exact Ec|reflexivity]|apply ole_refl|apply sle_refl]. }
+  destruct (w_create_obj (mw m)) as [|[u c] r] eqn:E6.
+  2:{ intros [= <-]. eapply oRR_step; [|apply bus_R]. same. }
+  destruct (w_create_svc (mw m)) as [|[[[ou oc] su] sc] r] eqn:E7.
+  2:{ intros [= <-]. eapply oRR_step; [|apply bus_R]. same. }
+  destruct (w_destroy_svc (mw m)) as [|[[[ou oc] su] sc] r] eqn:E8.
+  2:{ intros [= <-]. eapply oRR_step; [|apply bus_R]. same. }
+  destruct (w_destroy_obj (mw m)) as [|[u c] r] eqn:E9.
+  2:{ intros [= <-]. eapply oRR_step; [|apply bus_R]. same. }
+  destruct (w_abort (mw m)) as [|[b callee] r] eqn:E10.
+  2:{ intros [= <-]. eapply oRR_step; [|apply abort_call_R]. same. }
+  discriminate.
+Qed.
+
+Lemma settle_R fuel : forall m, oRR m (settle fuel m).
+Proof.
+  induction fuel as [|f IH]; intros m; cbn [settle].
+  - destruct (settle_one m) as [[m'|m'|]|]; cbn; try exact I. apply R_refl.
+  - destruct (settle_one m) as [x|] eqn:E; [|apply R_refl].
+    apply settle_one_R in E. destruct x as [m'|m'|]; cbn in E; try exact I; (eapply oRR_step; [exact E|apply IH]).
+Qed.
+
+(* ================================================================ gate-in *)
+Definition m_of (s : state) : M := {| ms := s; mw := work0; mo := [] |}.
+
+Lemma handle_gated_fail s c cs x v fresh b :
+  conns s !! c = Some cs -> min_version_of x = Some v -> cs_ver cs < v ->
+  handle (m_of s) c x fresh b = Fail (m_of s).
+Proof.
+  intros Hc Hx Hv. unfold handle. cbn [ms m_of]. rewrite Hc.
+  destruct x; try discriminate Hx; injection Hx as <-; try reflexivity;
+    unfold gate, ver_of; cbn [ms m_of]; rewrite Hc; cbn [fmap option_fmap option_map];
+    match goal with |- (if ?a <? ?b then _ else _) = _ => destruct (N.ltb_spec a b) as [|Hge]; [reflexivity|] end;
+    exfalso; match type of Hge with ?k <= _ => let k' := eval vm_compute in k in change k with k' in Hge end; lia.
+Qed.
